@@ -25,6 +25,7 @@ func Encrypt(plaintext []byte, algorithm string, key jwk.Key, nonce []byte, asso
 	// Note that this includes all constants defined in consts.go, but some algorithms are not supported (yet)
 	switch algorithm {
 	case Algorithm_A128CBC, Algorithm_A192CBC, Algorithm_A256CBC,
+		Algorithm_A128CBC_NOPAD, Algorithm_A192CBC_NOPAD, Algorithm_A256CBC_NOPAD,
 		Algorithm_A128GCM, Algorithm_A192GCM, Algorithm_A256GCM,
 		Algorithm_A128CBC_HS256, Algorithm_A192CBC_HS384, Algorithm_A256CBC_HS512,
 		Algorithm_A128KW, Algorithm_A192KW, Algorithm_A256KW,
@@ -49,6 +50,7 @@ func Decrypt(ciphertext []byte, algorithm string, key jwk.Key, nonce []byte, tag
 	// Note that this includes all constants defined in consts.go, but some algorithms are not supported (yet)
 	switch algorithm {
 	case Algorithm_A128CBC, Algorithm_A192CBC, Algorithm_A256CBC,
+		Algorithm_A128CBC_NOPAD, Algorithm_A192CBC_NOPAD, Algorithm_A256CBC_NOPAD,
 		Algorithm_A128GCM, Algorithm_A192GCM, Algorithm_A256GCM,
 		Algorithm_A128CBC_HS256, Algorithm_A192CBC_HS384, Algorithm_A256CBC_HS512,
 		Algorithm_A128KW, Algorithm_A192KW, Algorithm_A256KW,
